@@ -31,6 +31,7 @@ def main():
     ap = argparse.ArgumentParser()
     ap.add_argument("--only", default="")
     ap.add_argument("--kind", default="all")
+    ap.add_argument("--skip", default="", help="skip variants whose id starts with this prefix")
     ap.add_argument("--property", default="", help="only variants that concern this property; run only its check")
     args = ap.parse_args()
     tmp = tempfile.mkdtemp(prefix="mpdst.")
@@ -84,6 +85,8 @@ def main():
                     items.append({"id": k, "patch": os.path.join(ud, k + ".patch"), "props": v["props"], "expect": v["expect"]})
             for m in items:
                 if args.only and not m["id"].startswith(args.only):
+                    continue
+                if args.skip and m["id"].startswith(args.skip):
                     continue
                 if args.property:
                     concerned = set(m.get("props") or []) | ({m["property"]} if m.get("property") else set())
